@@ -652,5 +652,255 @@ def C09(tier):
     return _dict_standin('C09', tier)
 
 
+
+
+# ====================================================================== Deque / Index (C11 / C12)
+def C11(tier):
+    import collections
+    import pickle
+    import random
+    import diskcache
+    seed0 = int(os.environ.get('VERIF_SEED', '0') or 0)
+    nh, steps = (16, 60) if tier == 'quick' else (120, 120)
+    bad = None
+    cases = 0
+    vals = [0, 1, 2, 'a', 'b', b'x' * 40, None, (1, 2), 2.5]
+    for h in range(nh):
+        rnd = random.Random(seed0 * 1000 + h)
+        maxlen = rnd.choice([None, 0, 1, 3, 5])
+        d = tempfile.mkdtemp()
+        try:
+            dq = diskcache.Deque(directory=d, maxlen=maxlen)
+            dq.cache.reset('disk_min_file_size', 16)
+            ref = collections.deque(maxlen=maxlen)
+            for step in range(steps):
+                op = rnd.choice(['append', 'appendleft', 'extend', 'extendleft', 'pop', 'popleft', 'peek', 'peekleft',
+                                 'getitem', 'setitem', 'delitem', 'rotate', 'reverse', 'remove', 'count', 'cmp', 'iter',
+                                 'clear', 'reopen', 'pickle', 'copy', 'maxlen', 'len'])
+                where = 'history %d (maxlen %r) step %d %s' % (h, maxlen, step, op)
+                cases += 1
+                v = rnd.choice(vals)
+                i = rnd.randint(-7, 7)
+
+                def both(f, g):
+                    try:
+                        a = f()
+                        ea = None
+                    except Exception as e:
+                        a, ea = None, type(e)
+                    try:
+                        b = g()
+                        eb = None
+                    except Exception as e:
+                        b, eb = None, type(e)
+                    return a, ea, b, eb
+                if op in ('append', 'appendleft'):
+                    getattr(dq, op)(v)
+                    getattr(ref, op)(v)
+                elif op in ('extend', 'extendleft'):
+                    xs = [rnd.choice(vals) for _ in range(rnd.randint(0, 3))]
+                    getattr(dq, op)(xs)
+                    getattr(ref, op)(xs)
+                elif op in ('pop', 'popleft'):
+                    a, ea, b, eb = both(getattr(dq, op), getattr(ref, op))
+                    if ea != eb or not same(a, b):
+                        bad = where + ': %r/%r vs deque %r/%r' % (a, ea, b, eb)
+                elif op in ('peek', 'peekleft'):
+                    a, ea, b, eb = both(getattr(dq, op), lambda: ref[-1] if op == 'peek' else ref[0])
+                    if ea != eb or not same(a, b):
+                        bad = where + ': %r/%r vs deque %r/%r' % (a, ea, b, eb)
+                elif op == 'getitem':
+                    a, ea, b, eb = both(lambda: dq[i], lambda: ref[i])
+                    if ea != eb or not same(a, b):
+                        bad = where + ' [%d]: %r/%r vs deque %r/%r' % (i, a, ea, b, eb)
+                elif op == 'setitem':
+                    def s1():
+                        dq[i] = v
+
+                    def s2():
+                        ref[i] = v
+                    a, ea, b, eb = both(s1, s2)
+                    if ea != eb:
+                        bad = where + ' [%d]: %r vs deque %r' % (i, ea, eb)
+                elif op == 'delitem':
+                    def d1():
+                        del dq[i]
+
+                    def d2():
+                        del ref[i]
+                    a, ea, b, eb = both(d1, d2)
+                    if ea != eb:
+                        bad = where + ' [%d]: %r vs deque %r' % (i, ea, eb)
+                elif op == 'rotate':
+                    dq.rotate(i)
+                    ref.rotate(i)
+                elif op == 'reverse':
+                    dq.reverse()
+                    ref.reverse()
+                elif op == 'remove':
+                    a, ea, b, eb = both(lambda: dq.remove(v), lambda: ref.remove(v))
+                    if ea != eb:
+                        bad = where + ' (%r): %r vs deque %r' % (v, ea, eb)
+                elif op == 'count':
+                    if dq.count(v) != ref.count(v):
+                        bad = where + ' (%r): %r vs %r' % (v, dq.count(v), ref.count(v))
+                elif op == 'cmp':
+                    other = collections.deque(list(ref)[:rnd.randint(0, len(ref) + 1)] + ([v] if rnd.random() < .5 else []))
+                    comparable = all(type(x) in (int, float) for x in list(ref) + list(other))
+                    for nm in ('__eq__', '__ne__') + (('__lt__', '__le__', '__gt__', '__ge__') if comparable else ()):
+                        if getattr(dq, nm)(other) != getattr(ref, nm)(other):
+                            bad = where + ' %s(%r): %r vs %r' % (nm, list(other), getattr(dq, nm)(other), getattr(ref, nm)(other))
+                elif op == 'iter':
+                    if not (len(list(dq)) == len(ref) and all(same(x, y) for x, y in zip(dq, ref))
+                            and all(same(x, y) for x, y in zip(reversed(dq), reversed(ref)))):
+                        bad = where + ': %r vs %r' % (list(dq), list(ref))
+                elif op == 'clear':
+                    dq.clear()
+                    ref.clear()
+                elif op == 'reopen':
+                    dq.cache.close()
+                    dq = diskcache.Deque(directory=d, maxlen=maxlen)
+                elif op == 'pickle':
+                    dq = pickle.loads(pickle.dumps(dq))
+                elif op == 'copy':
+                    dq = dq.copy()
+                elif op == 'maxlen' and maxlen is not None:
+                    maxlen = rnd.choice([1, 3, 5])
+                    dq.maxlen = maxlen
+                    ref = collections.deque(ref, maxlen=maxlen)
+                if bad is None and not (len(dq) == len(ref) and all(same(x, y) for x, y in zip(dq, ref))):
+                    bad = where + ': contents %r vs deque %r' % (list(dq), list(ref))
+                if bad:
+                    break
+            if bad is None and dq.cache.check():
+                bad = 'history %d: check() reports %r' % (h, [str(w.message) for w in dq.cache.check()][:2])
+        except Exception as e:
+            import traceback
+            bad = bad or 'history %d raised %r %s' % (h, e, traceback.format_exc()[-300:])
+        finally:
+            shutil.rmtree(d, ignore_errors=True)
+        if bad:
+            break
+    return [result('C11.standin.deque_histories', bad is None,
+                   '%d random histories x %d steps, maxlen in {None,0,1,3,5}, indices -7..7, reopen/pickle/copy' % (nh, steps), cases, bad)]
+
+
+def C12(tier):
+    import collections
+    import pickle
+    import random
+    import diskcache
+    seed0 = int(os.environ.get('VERIF_SEED', '0') or 0)
+    nh, steps = (16, 60) if tier == 'quick' else (120, 120)
+    bad = None
+    cases = 0
+    keys = ['a', 'b', 'c', 1, 2.5, b'k', (1, 2), None]
+    vals = [0, 1, 'x', b'y' * 40, None, (1, 'z'), 2.5]
+    for h in range(nh):
+        rnd = random.Random(seed0 * 1000 + h)
+        d = tempfile.mkdtemp()
+        try:
+            ix = diskcache.Index(d)
+            ix.cache.reset('disk_min_file_size', 16)
+            ref = collections.OrderedDict()
+            for step in range(steps):
+                op = rnd.choice(['set', 'set', 'get', 'del', 'pop', 'popitem', 'popitem0', 'setdefault', 'update', 'views',
+                                 'eq', 'iter', 'clear', 'reopen', 'pickle', 'peekitem', 'len', 'in'])
+                k, v = rnd.choice(keys), rnd.choice(vals)
+                where = 'history %d step %d %s(%r)' % (h, step, op, k)
+                cases += 1
+
+                def both(f, g):
+                    try:
+                        a, ea = f(), None
+                    except Exception as e:
+                        a, ea = None, type(e)
+                    try:
+                        b, eb = g(), None
+                    except Exception as e:
+                        b, eb = None, type(e)
+                    return a, ea, b, eb
+                if op == 'set':
+                    ix[k] = v
+                    ref[k] = v
+                elif op == 'get':
+                    a, ea, b, eb = both(lambda: ix[k], lambda: ref[k])
+                    if ea != eb or not same(a, b):
+                        bad = where + ': %r/%r vs %r/%r' % (a, ea, b, eb)
+                elif op == 'del':
+                    def d1():
+                        del ix[k]
+
+                    def d2():
+                        del ref[k]
+                    a, ea, b, eb = both(d1, d2)
+                    if ea != eb:
+                        bad = where + ': %r vs %r' % (ea, eb)
+                elif op == 'pop':
+                    if rnd.random() < .5:
+                        a, ea, b, eb = both(lambda: ix.pop(k), lambda: ref.pop(k))
+                    else:
+                        a, ea, b, eb = both(lambda: ix.pop(k, 'D'), lambda: ref.pop(k, 'D'))
+                    if ea != eb or not same(a, b):
+                        bad = where + ': %r/%r vs %r/%r' % (a, ea, b, eb)
+                elif op in ('popitem', 'popitem0'):
+                    last = op == 'popitem'
+                    a, ea, b, eb = both(lambda: ix.popitem(last=last), lambda: ref.popitem(last=last))
+                    if ea != eb or (a is not None and not (same(a[0], b[0]) and same(a[1], b[1]))):
+                        bad = where + ': %r/%r vs %r/%r' % (a, ea, b, eb)
+                elif op == 'setdefault':
+                    a, b = ix.setdefault(k, v), ref.setdefault(k, v)
+                    if not same(a, b):
+                        bad = where + ': %r vs %r' % (a, b)
+                elif op == 'update':
+                    items = [(rnd.choice(keys), rnd.choice(vals)) for _ in range(2)]
+                    ix.update(items)
+                    ref.update(items)
+                elif op == 'views':
+                    if not (all(same(x, y) for x, y in zip(ix.keys(), ref.keys())) and
+                            all(same(x, y) for x, y in zip(ix.values(), ref.values())) and
+                            len(list(ix.items())) == len(ref)):
+                        bad = where + ': views differ'
+                elif op == 'eq':
+                    o1 = collections.OrderedDict(ref)
+                    o2 = dict(ref)
+                    o3 = collections.OrderedDict(reversed(list(ref.items())))
+                    for o in (o1, o2, o3):
+                        if (ix == o) != (ref == o) or (ix != o) != (ref != o):
+                            bad = where + ': equality with %s: %r vs %r' % (type(o).__name__, ix == o, ref == o)
+                elif op == 'iter':
+                    if not (all(same(x, y) for x, y in zip(ix, ref)) and all(same(x, y) for x, y in zip(reversed(ix), reversed(ref)))):
+                        bad = where + ': iteration %r vs %r' % (list(ix), list(ref))
+                elif op == 'clear':
+                    ix.clear()
+                    ref.clear()
+                elif op == 'reopen':
+                    ix.cache.close()
+                    ix = diskcache.Index(d)
+                elif op == 'pickle':
+                    ix = pickle.loads(pickle.dumps(ix))
+                elif op == 'peekitem' and ref:
+                    a = ix.peekitem()
+                    b = next(reversed(ref.items()))
+                    if not (same(a[0], b[0]) and same(a[1], b[1])):
+                        bad = where + ': %r vs %r' % (a, b)
+                elif op == 'in':
+                    if (k in ix) != (k in ref):
+                        bad = where + ': %r vs %r' % (k in ix, k in ref)
+                if bad is None and not (len(ix) == len(ref) and all(same(x, y) for x, y in zip(ix, ref))):
+                    bad = where + ': keys %r vs %r' % (list(ix), list(ref))
+                if bad:
+                    break
+        except Exception as e:
+            import traceback
+            bad = bad or 'history %d raised %r %s' % (h, e, traceback.format_exc()[-300:])
+        finally:
+            shutil.rmtree(d, ignore_errors=True)
+        if bad:
+            break
+    return [result('C12.standin.index_histories', bad is None,
+                   '%d random histories x %d steps over 8 keys / 7 values against OrderedDict, reopen/pickle' % (nh, steps), cases, bad)]
+
+
 if __name__ == '__main__':
     main()
